@@ -635,7 +635,7 @@ OBLIGATIONS = [
     Ob("C01.boundary.twin", "boundary_twin", cases=[{"n": 3, "tail": 2}], expect="refute", timeout=60),
     Ob("C01.lex_smt", "req_lex", smt="req_lex_smt", cases=[{"permit": False}, {"permit": True}], timeout=300,
        bound="strings of ANY length over latin-1 (what a request can carry): the regex gates of parse_headers / parse_request_line "
-             "(pattern and applied method read from the source) accept exactly RFC 9110 tokens as field names, values free of "
-             "NUL/CR/LF, conventional (or, if permitted, any token) methods, and 'HTTP/' DIGIT '.' DIGIT; z3 regex inclusion both "
-             "ways under the call-site context (no ':' in names, values trimmed, no SP in methods), models replayed through Request()"),
+             "(pattern and applied method read from the source) accept only RFC 9110 tokens as field names and methods, only values free "
+             "of NUL/CR/LF, and only 'HTTP/' DIGIT '.' DIGIT as version; z3 regex inclusion (accepted within RFC) "
+             "under the call-site context (no ':' in names, values trimmed, no SP in methods), models replayed through Request()"),
 ]
